@@ -231,32 +231,110 @@ func (c *Ctx) reachesWithin(from, to *ssa.Function, depth int) bool {
 // recvChanField returns the channel-typed struct field the closure receives from (range or <-), if any.
 func recvChanField(fn *ssa.Function) *types.Var {
 	var out *types.Var
-	eachInstr(fn, func(in ssa.Instruction) {
-		u, ok := in.(*ssa.UnOp)
-		if !ok || u.Op != token.ARROW {
+	seen := map[*ssa.Function]bool{}
+	var visit func(f *ssa.Function, d int)
+	visit = func(f *ssa.Function, d int) {
+		if f == nil || seen[f] || d > 3 || len(f.Blocks) == 0 {
 			return
 		}
-		if fv := chanFieldOf(u.X); fv != nil {
-			out = fv
-		}
-	})
+		seen[f] = true
+		eachInstr(f, func(in ssa.Instruction) {
+			switch x := in.(type) {
+			case *ssa.UnOp:
+				if x.Op == token.ARROW {
+					if fv := chanFieldOf(x.X); fv != nil {
+						out = fv
+					}
+				}
+			case *ssa.Select:
+				for _, st := range x.States {
+					if st.Dir == types.RecvOnly {
+						if fv := chanFieldOf(st.Chan); fv != nil {
+							out = fv
+						}
+					}
+				}
+			case ssa.CallInstruction:
+				// the receive may sit in an unexported helper of the worker (`go c.run()` → c.drain())
+				if cal := x.Common().StaticCallee(); cal != nil && cal.Pkg == f.Pkg && cal.Object() != nil && !cal.Object().Exported() {
+					if _, isGo := in.(*ssa.Go); !isGo {
+						visit(cal, d+1)
+					}
+				}
+			}
+		})
+	}
+	visit(fn, 0)
 	return out
 }
 
-// chanFieldOf: v is a load of a struct field of channel type -> that field.
-func chanFieldOf(v ssa.Value) *types.Var {
-	ld, ok := v.(*ssa.UnOp)
-	if !ok || ld.Op != token.MUL {
+// chanFieldOf: v is (a copy of) a struct field of channel type -> that field. Copies through locals, captured
+// variables and parameters of unexported functions are followed.
+func chanFieldOf(v ssa.Value) *types.Var { return chanFieldOfD(v, 0) }
+
+func chanFieldOfD(v ssa.Value, d int) *types.Var {
+	if d > 6 {
 		return nil
 	}
-	fa, ok := ld.X.(*ssa.FieldAddr)
-	if !ok {
-		return nil
-	}
-	st := fa.X.Type().Underlying().(*types.Pointer).Elem().Underlying().(*types.Struct)
-	f := st.Field(fa.Field)
-	if _, ok := f.Type().Underlying().(*types.Chan); ok {
-		return f
+	switch x := v.(type) {
+	case *ssa.UnOp:
+		if x.Op != token.MUL {
+			return nil
+		}
+		switch a := x.X.(type) {
+		case *ssa.FieldAddr:
+			st := a.X.Type().Underlying().(*types.Pointer).Elem().Underlying().(*types.Struct)
+			f := st.Field(a.Field)
+			if _, ok := f.Type().Underlying().(*types.Chan); ok && f.Pkg() != nil && strings.HasPrefix(f.Pkg().Path(), logPath) {
+				return f // a channel field of one of the module's own types (not, e.g., time.Ticker.C)
+			}
+		case *ssa.Alloc:
+			var out *types.Var
+			for _, st := range storesTo(a) {
+				fv := chanFieldOfD(st.Val, d+1)
+				if fv == nil || (out != nil && out != fv) {
+					return nil
+				}
+				out = fv
+			}
+			return out
+		case *ssa.FreeVar:
+			fn := a.Parent()
+			idx := -1
+			for i, fv := range fn.FreeVars {
+				if fv == a {
+					idx = i
+				}
+			}
+			if idx < 0 || fn.Parent() == nil {
+				return nil
+			}
+			var out *types.Var
+			eachInstr(fn.Parent(), func(in ssa.Instruction) {
+				if mc, ok := in.(*ssa.MakeClosure); ok && mc.Fn == fn && idx < len(mc.Bindings) {
+					if al, ok := mc.Bindings[idx].(*ssa.Alloc); ok {
+						for _, st := range storesTo(al) {
+							if fv := chanFieldOfD(st.Val, d+1); fv != nil {
+								out = fv
+							}
+						}
+					}
+				}
+			})
+			return out
+		}
+	case *ssa.Phi:
+		var out *types.Var
+		for _, e := range x.Edges {
+			fv := chanFieldOfD(e, d+1)
+			if fv == nil || (out != nil && out != fv) {
+				return nil
+			}
+			out = fv
+		}
+		return out
+	case *ssa.ChangeType:
+		return chanFieldOfD(x.X, d+1)
 	}
 	return nil
 }
